@@ -152,6 +152,70 @@ def round (cfg : Cfg) (s : St) (force : Bool) (sendFails : List String) (listFai
     let (lr, sent2) := requestUnknown cfg s.now force (s.peers.map (·.1)) s.suspicious sendFails pruned (dedup s.connected)
     ({ s with peers := peers', lastReq := lr }, sent1 ++ sent2)
 
+/-! ### the poll round in steps
+
+A send takes up to seconds and the message handler runs on another goroutine: messages from a peer are
+stored WHILE a round is under way.  The round reads the table once (the snapshot), decides from the
+snapshot whom to poll, and after every successful send records the poll time.  `markStored` is what the
+code does since fix 55c208f (`Store.UpdatePeerState`: one write transaction re-reads the record);
+`markSnapshot` is what it did before (the copy loaded before the send is written back). -/
+
+inductive IlOp where
+  | recv (t : MsgType) (src : String) (p : Option Cap)   -- a message handled by the message handler
+  | mark (k : String)                                     -- the round records the poll time of `k`
+  | send (k : String) (t : MsgType)                       -- the round sends
+  deriving DecidableEq, Repr
+
+def markStored (s : St) (k : String) : St :=
+  match lookup s.peers k with
+  | none => s
+  | some r => { s with peers := put s.peers k (reload { r with lastPoll := some s.now }) }
+
+def markSnapshot (s : St) (k : String) (r : PeerRec) : St :=
+  { s with peers := put s.peers k (reload { r with lastPoll := some s.now }) }
+
+def ilStep (s : St) : IlOp → St × List (String × MsgType)
+  | .recv t src p => recv s t src p
+  | .mark k => (markStored s k, [])
+  | .send k t => (s, [(k, t)])
+
+def runIl : St → List IlOp → St × List (String × MsgType)
+  | s, [] => (s, [])
+  | s, op :: rest => ((runIl (ilStep s op).1 rest).1, (ilStep s op).2 ++ (runIl (ilStep s op).1 rest).2)
+
+/-- a message that is handled while the round is sending to its source -/
+abbrev During := Option (MsgType × String × Option Cap)
+
+def duringOps (d : During) (k : String) : List IlOp :=
+  match d with
+  | some (t, src, p) => if src = k then [.recv t src p] else []
+  | none => []
+
+/-- the known-peer half of `pollPeers` as a schedule: every decision is taken from the snapshot -/
+def knownSchedule (cfg : Cfg) (now : Nat) (susp : List String) (force : Bool) (sendFails : List String) (d : During) :
+    List (String × PeerRec) → List IlOp
+  | [] => []
+  | (k, r) :: rest =>
+    if !force && !shouldPoll cfg now r then knownSchedule cfg now susp force sendFails d rest
+    else if susp.contains k then knownSchedule cfg now susp force sendFails d rest
+    else if sendFails.contains k then knownSchedule cfg now susp force sendFails d rest
+    else IlOp.send k (if isStale cfg now r then MsgType.requestPoll else MsgType.poll) :: (duringOps d k ++
+          (IlOp.mark k :: knownSchedule cfg now susp force sendFails d rest))
+
+/-- one poll round with (at most) one message handled during a send to its source -/
+def roundIl (cfg : Cfg) (s : St) (force : Bool) (sendFails : List String) (listFails : Bool) (d : During) :
+    St × List (String × MsgType) :=
+  let r1 := runIl s (knownSchedule cfg s.now s.suspicious force sendFails d s.peers)
+  if listFails then r1
+  else
+    let pruned := s.lastReq.filter (fun e => s.connected.contains e.1)
+    let r2 := requestUnknown cfg s.now force (s.peers.map (·.1)) s.suspicious sendFails pruned (dedup s.connected)
+    let s2 : St := { r1.1 with lastReq := r2.1 }
+    let r3 : St × List (String × MsgType) := match d with
+      | some (t, src, p) => if r2.2.any (·.1 == src) then recv s2 t src p else (s2, [])
+      | none => (s2, [])
+    (r3.1, r1.2 ++ r2.2 ++ r3.2)
+
 /-- `IsExpired` -/
 def isExpired (cfg : Cfg) (now : Nat) (r : PeerRec) : Bool :=
   match r.lastObs with | none => false | some t => now - t > cfg.timeout
